@@ -226,6 +226,8 @@ void shim_arm_fault(long long k, int code, bool writes_only);
 void shim_disarm();
 void shim_set_step_budget(long long vdbe_steps);
 void shim_set_inflate_budget(long long calls);
+// set on worker threads of the multi-threaded codec op: the (single-threaded) monitors' counters are bypassed there
+extern thread_local bool t_shim_bypass;
 std::vector<struct sqlite3*> shim_connections();
 long long shim_total_changes();
 int shim_any_in_txn();
